@@ -105,6 +105,85 @@ struct wv_pl_t
   _Bool order_ok;                   /* every transformed block was the block most recently handed out, by the worker's own stream */
   _Bool notified_ready, notified_update;   /* a notify_all on the respective condition variable happened since the flag was cleared */
 } wv_pl;
+/* index-wise expansions over the (at most 16) buffers: when the number of buffers is a constant of the obligation (WV_T_FIX) the
+   terms for the buffers that do not exist are left out by the preprocessor (CBMC dereferences every term of a contract clause before it
+   simplifies, and the cost of that is quadratic in the number of dereferences - measured) */
+#if !defined(WV_T_FIX) || WV_T_FIX > 1
+#define WV_IF1(x) x
+#else
+#define WV_IF1(x)
+#endif
+#if !defined(WV_T_FIX) || WV_T_FIX > 2
+#define WV_IF2(x) x
+#else
+#define WV_IF2(x)
+#endif
+#if !defined(WV_T_FIX) || WV_T_FIX > 3
+#define WV_IF3(x) x
+#else
+#define WV_IF3(x)
+#endif
+#if !defined(WV_T_FIX) || WV_T_FIX > 4
+#define WV_IF4(x) x
+#else
+#define WV_IF4(x)
+#endif
+#if !defined(WV_T_FIX) || WV_T_FIX > 5
+#define WV_IF5(x) x
+#else
+#define WV_IF5(x)
+#endif
+#if !defined(WV_T_FIX) || WV_T_FIX > 6
+#define WV_IF6(x) x
+#else
+#define WV_IF6(x)
+#endif
+#if !defined(WV_T_FIX) || WV_T_FIX > 7
+#define WV_IF7(x) x
+#else
+#define WV_IF7(x)
+#endif
+#if !defined(WV_T_FIX) || WV_T_FIX > 8
+#define WV_IF8(x) x
+#else
+#define WV_IF8(x)
+#endif
+#if !defined(WV_T_FIX) || WV_T_FIX > 9
+#define WV_IF9(x) x
+#else
+#define WV_IF9(x)
+#endif
+#if !defined(WV_T_FIX) || WV_T_FIX > 10
+#define WV_IF10(x) x
+#else
+#define WV_IF10(x)
+#endif
+#if !defined(WV_T_FIX) || WV_T_FIX > 11
+#define WV_IF11(x) x
+#else
+#define WV_IF11(x)
+#endif
+#if !defined(WV_T_FIX) || WV_T_FIX > 12
+#define WV_IF12(x) x
+#else
+#define WV_IF12(x)
+#endif
+#if !defined(WV_T_FIX) || WV_T_FIX > 13
+#define WV_IF13(x) x
+#else
+#define WV_IF13(x)
+#endif
+#if !defined(WV_T_FIX) || WV_T_FIX > 14
+#define WV_IF14(x) x
+#else
+#define WV_IF14(x)
+#endif
+#if !defined(WV_T_FIX) || WV_T_FIX > 15
+#define WV_IF15(x) x
+#else
+#define WV_IF15(x)
+#endif
+#define WV_FOLD16(M, OP, g) (M(g, 0) WV_IF1(OP M(g, 1)) WV_IF2(OP M(g, 2)) WV_IF3(OP M(g, 3)) WV_IF4(OP M(g, 4)) WV_IF5(OP M(g, 5)) WV_IF6(OP M(g, 6)) WV_IF7(OP M(g, 7)) WV_IF8(OP M(g, 8)) WV_IF9(OP M(g, 9)) WV_IF10(OP M(g, 10)) WV_IF11(OP M(g, 11)) WV_IF12(OP M(g, 12)) WV_IF13(OP M(g, 13)) WV_IF14(OP M(g, 14)) WV_IF15(OP M(g, 15)))
 #define WV_ST_OK(s) ((s) == EMPTY || (s) == UPDATING || (s) == READY || (s) == INV)
 #define WV_IO_OWNED(s) ((s) == EMPTY || (s) == UPDATING)
 #define WV_B_SAME_AS_ENTRY (wv_b->now == __CPROVER_loop_entry(wv_b->now) && wv_b->total == __CPROVER_loop_entry(wv_b->total) && \
@@ -113,9 +192,10 @@ struct wv_pl_t
 #define WV_B_OK(ib) ((ib)->now <= (ib)->total && (ib)->total <= iobuffer__BUF_SZ && (ib)->tail < 16)
 /* --- turn_iter: live_num counts the buffers that are not retired; cyclic arithmetic without division (P-H) */
 unsigned wv_steps;
+unsigned wv_pg;     /* ghost: observed byte position inside the padding block */
+unsigned wv_gk;     /* ghost: observed worker index */
 #define WV_LIVE1(g, j) (((j) < (g)->size && (g)->ctrl[j].state != INV) ? 1 : 0)
-#define WV_COUNT_LIVE(g) (WV_LIVE1(g, 0) + WV_LIVE1(g, 1) + WV_LIVE1(g, 2) + WV_LIVE1(g, 3) + WV_LIVE1(g, 4) + WV_LIVE1(g, 5) + WV_LIVE1(g, 6) + WV_LIVE1(g, 7) + \
-  WV_LIVE1(g, 8) + WV_LIVE1(g, 9) + WV_LIVE1(g, 10) + WV_LIVE1(g, 11) + WV_LIVE1(g, 12) + WV_LIVE1(g, 13) + WV_LIVE1(g, 14) + WV_LIVE1(g, 15))
+#define WV_COUNT_LIVE(g) WV_FOLD16(WV_LIVE1, +, g)
 #define WV_CD(n, a, x) ((unsigned)((x) >= (a) ? (x) - (a) : (x) + (n) - (a)))            /* cyclic distance from a to x */
 #define WV_ADDM(n, a, k) ((unsigned)((a) + (k) >= (n) ? (a) + (k) - (n) : (a) + (k)))     /* (a + k) mod n for k <= n */
 /* the buffers at cyclic distance 1..k from e are all retired */
@@ -125,6 +205,38 @@ unsigned wv_steps;
   WV_INVB1(g, e, k, 5) && WV_INVB1(g, e, k, 6) && WV_INVB1(g, e, k, 7) && WV_INVB1(g, e, k, 8) && WV_INVB1(g, e, k, 9) && WV_INVB1(g, e, k, 10) && \
   WV_INVB1(g, e, k, 11) && WV_INVB1(g, e, k, 12) && WV_INVB1(g, e, k, 13) && WV_INVB1(g, e, k, 14) && WV_INVB1(g, e, k, 15) && WV_INVB_SELF(g, e, k) && \
   (g)->turn == WV_ADDM((g)->size, e, (k) >= (g)->size ? 0 : (k)))
+/* --- run_buffer: the I/O thread's loop over the buffers (thread-modular: the workers' steps are the rely, applied to every
+   buffer at the head of each turn and, for the buffer waited on, inside wait_update's contract).
+   Per buffer j, facts that both the I/O thread's own steps and the workers' steps preserve: */
+#define WV_IOB(g, j) ((g)->buflst[j])
+#define WV_IOC(g, j) ((g)->ctrl[j])
+#define WV_IOI1(g, j) ((j) >= (g)->size || (!WV_IOC(g, j).lock.held && WV_ST_OK(WV_IOC(g, j).state) && WV_B_OK(&WV_IOB(g, j)) && \
+  (WV_IOC(g, j).state != READY ==> WV_IOB(g, j).now == WV_IOB(g, j).total) && (WV_IOC(g, j).state == EMPTY ==> WV_IOB(g, j).total == 0) && \
+  ((WV_IOC(g, j).state == READY || WV_IOC(g, j).state == UPDATING) ==> (!WV_IOB(g, j).isfinal ==> WV_IOB(g, j).total == iobuffer__BUF_SZ))))
+#define WV_IOI(g) WV_FOLD16(WV_IOI1, &&, g)
+/* bytes loaded and not yet flushed: 16 * total of every buffer that is with a worker or handed back */
+#define WV_PEND1(g, j) (((j) < (g)->size && (WV_IOC(g, j).state == READY || WV_IOC(g, j).state == UPDATING)) ? ((unsigned long long)WV_IOB(g, j).total << 4) : 0ull)
+#define WV_PEND(g) WV_FOLD16(WV_PEND1, +, g)
+/* the rely at the head of a turn: a worker may have taken further blocks of its READY buffer and, having taken all, handed it back */
+#define WV_IO_LOOP_TURN(g) { wv_rely_workers(g); wv_c = &(g)->ctrl[(g)->turn]; wv_b = &(g)->buflst[(g)->turn]; }
+#define WV_IO_LOOP_FRAME(g) (g)->turn, (g)->over, __CPROVER_object_whole((g)->ctrl), __CPROVER_object_whole((g)->buflst), bufferctrl__live_num, \
+  (g)->fin->pos, (g)->fin->eof, WV_FILE_WSTATE((g)->fout), wv_c, wv_b, wv_steps, wv_pl.notified_ready, wv_pl.notified_update
+/* the invariant at the head of a turn; fp0 / op0 / nb0 / wc0 / wb0 are the values on entry to the loop */
+#define WV_IO_WRITTEN(g, nb0) ((g)->fout->nbytes - (nb0))
+#define WV_IO_CONSUMED(g, fp0) ((g)->fin->pos - (fp0))
+#define WV_IO_LOOP_INV(g, fp0, op0, nb0, wc0, wb0) ( \
+  (g)->turn < (g)->size && WV_IOC(g, (g)->turn).state != INV && bufferctrl__live_num == WV_COUNT_LIVE(g) && bufferctrl__live_num >= 1 && WV_IOI(g) && \
+  (g)->fin->open && (g)->fin->len < (1ull << 58) && (g)->fin->pos >= (fp0) && (g)->fin->pos <= ((fp0) > (g)->fin->len ? (fp0) : (g)->fin->len) && \
+  (!(g)->over ==> !(g)->fin->eof) && ((g)->over ==> (g)->fin->pos >= (g)->fin->len) && \
+  (g)->fout->open && (g)->fout->nbytes >= (nb0) && (g)->fout->pos == (op0) + WV_IO_WRITTEN(g, nb0) && (g)->fout->len == (g)->fout->pos && \
+  (nb0) < (1ull << 59) && WV_IO_WRITTEN(g, nb0) <= WV_IO_CONSUMED(g, fp0) + 16 && \
+  WV_IO_WRITTEN(g, nb0) + WV_PEND(g) <= WV_IO_CONSUMED(g, fp0) + (((g)->over && (g)->ispadding) ? 16 : 0) && \
+  (bufferctrl__live_num < (g)->size ==> (g)->over) && \
+  ((g)->ispadding ==> (WV_IO_WRITTEN(g, nb0) + WV_PEND(g) == ((g)->over ? (WV_IO_CONSUMED(g, fp0) & ~15ull) + 16 : WV_IO_CONSUMED(g, fp0)) && \
+                       (!(g)->over ==> (WV_IO_CONSUMED(g, fp0) % iobuffer__sum) == 0))) && \
+  ((wv_wP >= (op0) && wv_wP < (g)->fout->pos) ? wv_wcount == (wc0) + 1 : (wv_wcount == (wc0) && wv_wbyte == (wb0))))
+/* lexicographic: input left to load (0 once `over`), then buffers not yet retired */
+#define WV_IO_LOOP_MEASURE(g) ((g)->over ? 0ull : 1ull + ((g)->fin->len > (g)->fin->pos ? (g)->fin->len - (g)->fin->pos : 0ull)), bufferctrl__live_num
 /* --- prepare_AES: the observed streams are constants of the obligation (T is fixed there): stream 1 (if there is one) and the last */
 #ifdef WV_T_FIX
 #define WV_S1 ((WV_T_FIX) > 1 ? 1 : 0)
